@@ -235,7 +235,7 @@ def photometric_cases(draw):
 
 READS = ['profile', 'profile_error', 'area', 'data_profile', 'radius']
 OPS = READS + ['normalize_max', 'normalize_sum', 'unnormalize', 'ee_at_radius',
-               'deepcopy', 'pickle']
+               'deepcopy', 'pickle', 'gaussian_fwhm', 'gaussian_profile']
 
 
 def check_history(case, ctx):
@@ -279,6 +279,22 @@ def check_history(case, ctx):
                 ctx.event('not_picklable')
                 continue
             ctx.event('continued_on_' + op)
+            continue
+        if op.startswith('gaussian_'):
+            # derived accessors of RadialProfile (a Gaussian fitted to the
+            # profile): reading them is no operation of the history - every
+            # later read must still equal the reference (NaN bins included)
+            if kind != 'rp':
+                continue
+            with warnings.catch_warnings():
+                warnings.simplefilter('ignore')
+                try:
+                    getattr(obj, op)
+                    ctx.event('read_' + op)
+                except Exception:  # noqa: BLE001 - a fit that cannot be made
+                    ctx.event('gaussian_fit_raised')
+            if np.isnan(R['profile']).any():
+                ctx.event('gaussian_read_with_nan_bins')
             continue
         if op == 'ee_at_radius':
             # the interpolator must follow the *current* profile (it passes
